@@ -12,6 +12,11 @@ CLAIMED = {
    "DESIGN.md §6 C11",
    "Lean kernel; axioms propext/Classical.choice/Quot.sound only; hand-written model tied by correspondence (differential), harness and runner trusted.",
    "Lean 4 refinement proof (invariant + abstraction function) + exhaustive/random correspondence with pest::Stack"),
+ "C10": ("other",
+   "Lean 4 model of Position::line_col/line_of, LineIndex, Span::new/lines_span and Error::new_from_pos/new_from_span/underline/format (every usize subtraction, slice and unreachable! an explicit panic outcome), with the counting definitions as specification; theorems (lineCol_spec, lineIndex_eq, lineOf_spec, spanNew_iff, linesSpan_spec, render_total, render_shows) are stated and being proved; tied to the code by an exhaustive correspondence (all strings to 5/6 characters over {a, LF, CR, TAB, 2- and 3-byte chars} x all offsets and ordered offset pairs, byte-exact Display output) with the counting definitions also evaluated on the implementation as oracle.",
+   "DESIGN.md §6 C10",
+   "Lean kernel; axioms propext/Classical.choice/Quot.sound only; hand-written model tied by correspondence; slice::partition_point, String::replace and format! padding modelled by their contracts.",
+   "Lean 4 model + theorems against counting definitions + exhaustive correspondence with pest Position/Span/LineIndex/Error"),
 }
 REASON_TODO = "not claimed yet: machinery for this property is not built in the committed tree (planned in DESIGN.md §6); no check is registered rather than an unsound one"
 
